@@ -168,6 +168,9 @@ func Window(n int, bound string, pos int, amountSet bool, amount int) []int {
 			amt = n
 		}
 	}
+	if amt > n {
+		amt = n // (also keeps the arithmetic below away from overflow for "no limit" amounts such as MaxInt)
+	}
 	lo, hi := 0, 0
 	switch bound {
 	case "":
